@@ -1232,12 +1232,11 @@ impl FseDecoder {
             }
         }
         
-        // Build decompression table
-        let config = FseConfig {
-            table_log,
-            ..self.config.clone()
-        };
-        let table = FseTable::new(&frequencies, &config)?;
+        // Build decompression table the way the encoder built it: FseTable ignores the
+        // configured table_log (it always uses TF_SHIFT, which is what the header carries),
+        // so forcing the header value into the config only made validate() reject presets
+        // whose max_table_size is below 4096 (realtime).
+        let table = FseTable::new(&frequencies, &self.config)?;
         let table_size = 1usize << table_log;
         
         // Read initial state from the END of the data (rANS reads backward)
